@@ -250,12 +250,17 @@ func verifConsume(b Buffer, how, off, n int) (got []byte, rerr error, usedOff in
 // mismatch yields an error buffer, from which no consumer obtains any data.
 func Verif_C09_V11_ByteSlice() {
 	maxN, _, _ := verifC09Bounds()
-	ref := verifNewRef(vnd.Choose(maxN + 1))
+	ref := verifNewRefKind(vnd.Choose(maxN+1), vnd.Choose(2) == 1)
 	data := vnd.Bytes(vnd.Choose(maxN + 2))
 	backend := vnd.Choose(2) == 1
 	integ := &verifIntegrity{}
 	b := NewCASBufferFromByteSlice(ref.digest, data, verifSource(backend, integ))
 	matches := verifBytesEqual(data, ref.data)
+	if ref.bogus {
+		// a digest whose hash is the hash of no content (of any size, including 0): nothing matches it
+		vnd.Cover("slice-bogus-digest")
+		matches = false
+	}
 	_, rejected := b.(errorBuffer)
 	vnd.Assert(rejected == vnd.Not(matches), "byte slice CAS buffer: accepted mismatching content or rejected the object's own content")
 	if backend {
@@ -431,3 +436,46 @@ func Verif_C09_V14_ChunkTrailingData() {
 	}
 	vnd.ObserveBytes("v14", got)
 }
+
+// Verif_C09_V15_DecoratedConsumers: decorating a reader-backed CAS buffer with a
+// background task and/or an error handler that gives up does not weaken
+// validation: every consumption method still completes only on exactly matching
+// content, withholds the final portion otherwise, and delivers the verdict.
+func Verif_C09_V15_DecoratedConsumers() {
+	maxN, k, maxLen := verifC09Bounds()
+	ref := verifNewRef(vnd.Choose(maxN + 1))
+	src := &verifReader{script: verifScript(k, maxLen)}
+	backend := vnd.Choose(2) == 1
+	integ := &verifIntegrity{}
+	var b Buffer = NewCASBufferFromReader(ref.digest, src, verifSource(backend, integ))
+	taskRan := 0
+	switch vnd.Choose(3) {
+	case 0:
+		vnd.Cover("v15-with-task")
+		b = b.WithTask(func() error { taskRan++; return nil })
+	case 1:
+		vnd.Cover("v15-with-error-handler")
+		b = WithErrorHandler(b, &verifGiveUpHandler{})
+	case 2:
+		vnd.Cover("v15-task-over-handler")
+		b = WithErrorHandler(b, &verifGiveUpHandler{}).WithTask(func() error { taskRan++; return nil })
+	}
+	how := vnd.Choose(verifUseCount)
+	off := 0
+	if how == verifUseChunkReader || how == verifUseReadAt {
+		off = vnd.Choose(ref.n + 1)
+	}
+	got, err, usedOff := verifConsume(b, how, off, ref.n)
+	vnd.Assert(src.closes == 1, "source not closed exactly once")
+	verifCheckOutcome(ref, src.all, src.sticky == verifIOError, usedOff, got, err, integ, backend)
+	if err != nil && how != verifUseReadAt && len(src.all) == ref.n && src.sticky != verifIOError && ref.n > usedOff {
+		vnd.Assert(len(got) < ref.n-usedOff, "the complete mismatching content was handed to the consumer of a decorated buffer before the error")
+	}
+	vnd.ObserveBytes("got", got)
+}
+
+// verifGiveUpHandler passes every error through unchanged.
+type verifGiveUpHandler struct{ done int }
+
+func (h *verifGiveUpHandler) OnError(err error) (Buffer, error) { return nil, err }
+func (h *verifGiveUpHandler) Done()                             { h.done++ }
